@@ -9,7 +9,9 @@ Definition pk (cat pf pn : string) (iuse use : option string) (b d r p : dfile) 
   MkPkg (bs cat) (bs pf) (bs pn) (bs "00000")
         (match iuse with Some s => Some (bs s) | None => None end) None
         (match use with Some s => Some (bs s) | None => None end) b d r p.
-Definition no_obs : obs := MkObs RFailed RFailed RFailed RFailed RFailed.
+Definition no_obs : obs := MkObs RFailed RFailed RFailed RFailed RFailed [] [].
+(* every package of the witnesses has SLOT "0" *)
+Definition slots0 (n : nat) : list bytes := repeat (bs "0") n.
 Definition no_texts : list (option bytes) := [None; None; None; None].
 Definition simple_fs (lines : list string) : pfs :=
   [(bs "/r/p/base", PDir (Some (map bs lines)) None);
@@ -26,7 +28,7 @@ Definition witness_ok : case :=
                                                           (FDeps [DGrp (GUse (bs "x")) [at_ "app-misc/d" false [3%N]]]) FNone;
      pk "app-misc" "d-1" "app-misc/d" None None FNone FNone FNone FNone;
      pk "app-misc" "e-1" "app-misc/e" None None FNone FNone FNone FNone]
-    [4%N; 2%N; 0%N; 3%N; 1%N] true true (repeat no_texts 5) no_obs.
+    [4%N; 2%N; 0%N; 3%N; 1%N] true true (repeat no_texts 5) (slots0 5) no_obs.
 
 Example witness_ok_wf : wf witness_ok = true /\ kf witness_ok = 0%N.
 Proof. vm_compute. split; reflexivity. Qed.
@@ -46,8 +48,23 @@ Definition witness_kf1 : case :=
      pk "dev-libs" "b-1" "dev-libs/b" None None FNone FNone FNone FNone;
      pk "dev-libs" "c-1" "dev-libs/c" None None FNone FNone FNone FNone;
      pk "dev-libs" "d-1" "dev-libs/d" None None FNone FNone FNone FNone]
-    [0%N; 1%N; 2%N; 3%N; 4%N] true true (repeat no_texts 5) no_obs.
+    [0%N; 1%N; 2%N; 3%N; 4%N] true true (repeat no_texts 5) (slots0 5) no_obs.
 
 Lemma refuted_1_proof : wf witness_kf1 = true /\ kf witness_kf1 = 1%N /\ spec witness_kf1 (model witness_kf1) = false
   /\ o_stage (model witness_kf1) = ROk [bs "app-misc/top-1"; bs "dev-libs/a-1"; bs "dev-libs/b-1"].
+Proof. vm_compute. repeat split; reflexivity. Qed.
+
+(* round 5b: the loader's view.  On witness_ok the model's observation satisfies the specification; the same
+   observation with one package missing from what the loader returned (e-1, which nobody needs: the stage set is
+   unchanged), or with one package held under another slot key, is refused. *)
+Definition with_loaded (m : obs) (l : list (bytes * (bytes * bytes))) : obs :=
+  MkObs (o_sys m) (o_stage m) (o_bin_sys m) (o_bin_stage m) (o_bin_stage2 m) (o_listed m) l.
+Example loader_view_witness :
+  let m := model witness_ok in
+  spec witness_ok m = true
+  /\ o_loaded m = [(bs "app-misc/a-1", (bs "app-misc/a", bs "00000")); (bs "app-misc/b-1", (bs "app-misc/b", bs "00000"));
+                   (bs "app-misc/c-1", (bs "app-misc/c", bs "00000")); (bs "app-misc/d-1", (bs "app-misc/d", bs "00000"));
+                   (bs "app-misc/e-1", (bs "app-misc/e", bs "00000"))]
+  /\ spec witness_ok (with_loaded m (removelast (o_loaded m))) = false
+  /\ spec witness_ok (with_loaded m ((bs "app-misc/a-1", (bs "app-misc/a", bs "00001")) :: tl (o_loaded m))) = false.
 Proof. vm_compute. repeat split; reflexivity. Qed.
